@@ -40,7 +40,7 @@ def correspondence(ctx):
     D.decay_stream(rng, cases, "check_hp_decay Default", "decay_hp", streams, viol, samples,
                    "InventoryHP.decay / cumulative_decays: closure set, every amount within relative 1e-13 (+ guard 1e-315 x ancestors' atoms, "
                    "+ below-smallest-normal slack) of the proved enclosure of the exact solution for the nsimplify'd inputs; deep chains always included",
-                   shard=2)
+                   shard=2, py_pred=D.parent_tail_pred())
     # the recorded known-finding inputs, checked against the property AS WRITTEN (no guard)
     s2, v2, smp = {}, [], []
     D.decay_stream(rng, [dict(c) for c in KNOWN_INPUTS], "check_hp_decay_unguarded Default", "decay_hp_unguarded", s2, v2, smp,
